@@ -1272,6 +1272,9 @@ pub fn c19(ctx: &mut Ctx) -> (u64, String) {
     let b = c19_set::<ScancodeSet1>(ctx);
     let c = c19_set::<Keyboard<Echo, ScancodeSet2>>(ctx);
     let d = c19_set::<Keyboard<Echo, ScancodeSet1>>(ctx);
+    // a decoder obtained through Default::default() must pair makes and breaks like one built with new()
+    other_constructors_check::<ScancodeSet2>(ctx, "constructors");
+    other_constructors_check::<ScancodeSet1>(ctx, "constructors");
     ctx.sample_run("set2", &["byte:E0", "byte:70", "byte:E0", "byte:F0", "byte:70", "byte:83", "byte:F0", "byte:83"]);
     ctx.sample_run("set1", &["byte:60", "byte:E0", "byte:48", "byte:E0", "byte:C8"]);
     ctx.sample(json!({"set": 2, "make": ["E0", "70"], "break": ["E0", "F0", "70"], "check": "Insert Down <=> Insert Up"}));
